@@ -567,7 +567,7 @@ func runE2EModel(t *rapid.T, focus string) {
 	if err != nil {
 		t.Fatalf("tmp: %v", err)
 	}
-	defer os.RemoveAll(dir)
+	defer evid.RetireDir(dir)
 	port, err := freePort()
 	if err != nil {
 		t.Skip("inconclusive: no free port")
